@@ -1,0 +1,23 @@
+//go:build verif
+
+// Copyright JAMF Software, LLC
+
+package cmd
+
+import (
+	"context"
+
+	"github.com/jamf/regatta/regattaserver"
+	"go.uber.org/zap"
+	"google.golang.org/grpc"
+)
+
+// Re-exports for the verification harness (build tag verif). No logic.
+
+func VerifAuthFunc(token string) func(ctx context.Context) (context.Context, error) {
+	return authFunc(token)
+}
+
+func VerifCreateAPIServer(log *zap.Logger, reg func(grpc.ServiceRegistrar)) (*regattaserver.RegattaServer, error) {
+	return createAPIServer(log, reg)
+}
